@@ -28,7 +28,14 @@ RULE = ('relation instances enumerated over classes (direction focus/unfocus x m
         'numpy scalars and the SAME object is used for every call of the instance; the configuration is float64 (3 in 4), float32, '
         'or mixed (float32 data under precision 64 and vice versa); field and mask arrays come in six memory layouts.  Histories '
         'run relation instances after shifted traffic with other wavelengths / focal lengths / spacings at the same array sizes and '
-        'after a float32 run of the same calls, without clearing the executors.  Non-trivial: every array involved has >= 2 '
+        'after a float32 run of the same calls, without clearing the executors.  Linearity is required over the complex numbers for '
+        'fields stored in a real / integer / boolean dtype (U(alpha x + beta y) with complex alpha, beta); the embedding of such a field '
+        'is a COMPLEX zero array.  A zero shift is handed over in every container as well.  Form cases (class E, vp/propforms.py): '
+        'both fixed-sampling routes, to_fpm_and_back and Wavefront.babinet in a canonical form and then in every other accepted form '
+        'of the same numbers (field and mask dtype kinds, containers, numpy / integer / 0-d scalars, positional, omitted defaults after '
+        'other explicit values, Wavefront methods, lyot=None vs all-ones).  Foreign-history cases (class F): other consumers of the '
+        'shared helpers / executors (incl. the adjoint routines at the same cache keys) first, relation instances after.  '
+        'Non-trivial: every array involved has >= 2 '
         'non-zero samples (1x1 never generated); distinct = distinct descriptor (relation, class, shapes, scalars, sub-seed).')
 ASSUMPTIONS = ['the relations are consequences of the statement alone (linearity, independence of zero padding at fixed '
                'spacing, axis symmetry); no reference transform is used',
@@ -40,13 +47,15 @@ ASSUMPTIONS = ['the relations are consequences of the statement alone (linearity
                'float32).  Single precision (complex64 data or the float32 configuration): C01\'s conditioning rule per call, '
                'max(1e-3, 1000 eps32 * kernel phase) of the bound sum|a| / sqrt(Na Q0 Ma Q1) (to_fpm_and_back: of ||a||_2 max|mask|); '
                'instances whose tolerance would exceed 3e-2 are excluded and counted',
-               'a zero shift is always passed as a tuple (list / ndarray zero shifts are a documented-type TypeError in mdft); int '
-               'ndarray shifts hold integer physical values',
+               'int ndarray shifts hold integer physical values; a zero shift is accepted in every container by the reference tree',
+               'accepted argument forms are fixed from the reference tree (/repo @ faa8443, vp/propforms.py); a form must reproduce the '
+               'canonical result to 1e-12 (float32-carrying forms / single precision 1e-3) of max(max|canonical|, output bound)',
+               'an integer / boolean field is the real field of the same values; foreign traffic is not judged',
                'a failure seen with a non-tuple shift container is re-evaluated with an equal-valued tuple: if it then holds, the key names '
                'the container (one key for that mechanism), otherwise the relation\'s own key is used',
                'results are copied as soon as they are returned (a routine may hand back memory it shares with an argument)']
 REQUIRED = ['linearity', 'embedding', 'transposition', 'allpass-identity', 'mask-additivity', 'mask-linearity',
-            'babinet', 'babinet.exact-band', 'history.ops']
+            'babinet', 'babinet.exact-band', 'history.ops', 'form.equivalence', 'foreign.traffic']
 
 RTOL = 1e-9
 
@@ -66,6 +75,24 @@ def physical(rng):
 
 def cnormal(rng, shape):
     return rng.standard_normal(shape) + 1j * rng.standard_normal(shape)
+
+
+FIELD_KINDS = ('complex', 'real', 'complex', 'int', 'complex', 'bool')
+
+
+def field_of_kind(rng, kind, shape, dbits=64):
+    """A field of the dtype kind: complex, real-dtype float, integer image or boolean mask (the same law holds for all)."""
+    if kind == 'complex':
+        return to_bits(cnormal(rng, shape), dbits)
+    if kind == 'real':
+        return to_bits(rng.standard_normal(shape), dbits)
+    if kind == 'int':
+        dt = [np.int64, np.int32, np.uint8, np.uint16][int(rng.integers(4))]
+        return rng.integers(0 if np.dtype(dt).kind == 'u' else -3, 4, shape).astype(dt)
+    a = rng.random(shape) < 0.6
+    a.flat[0] = True
+    a.flat[-1] = True
+    return a
 
 
 def with_parity(n, par, lo, hi):
@@ -181,9 +208,8 @@ class ShiftArg:
     tuple, used only to attribute a failure to the container."""
 
     def __init__(self, kind, values):
-        zero = values[0] == 0 and values[1] == 0
-        if zero or (kind == 'nd-int' and not all(float(v).is_integer() for v in values)):
-            kind = 'tuple'            # a zero shift in a list / array is a documented-type error for mdft; int arrays hold integers only
+        if kind == 'nd-int' and not all(float(v).is_integer() for v in values):
+            kind = 'tuple'            # int arrays hold integers only
         self.kind = kind
         self.obj = make_container(kind, values) if kind != 'tuple' else (float(values[0]), float(values[1]))
         self.values = container_values(self.obj)
@@ -199,7 +225,7 @@ class ShiftArg:
 
 def shift_kind(v, scls):
     """Container kind of a case from its variant number: half the shifted cases keep the plain tuple."""
-    if scls == '0' or (v // 3) % 2 == 0:
+    if (v // 3) % 2 == 0:
         return 'tuple'
     return SHIFT_CONTAINERS[1 + (v // 6) % (len(SHIFT_CONTAINERS) - 1)]
 
@@ -401,6 +427,8 @@ def run(ctx):
         timed('allpass', wl_allpass, ctx, R)
         timed('masks', wl_masks, ctx, R)
         timed('history', wl_history, ctx, R)
+        timed('forms', wl_forms, ctx, R)
+        timed('foreign', wl_foreign, ctx, R)
         ctx.note('workload_seconds(first shard)', secs)
     finally:
         config.precision = old
@@ -451,9 +479,11 @@ def wl_linearity(ctx, R):
                         desc['api'] = 'Wavefront' if use_wf else 'function'
                         ctx.case(desc)
                         r2 = np.random.default_rng(seed)
-                        a, b = to_bits(cnormal(r2, in_shape), dbits), to_bits(cnormal(r2, in_shape), dbits)
+                        fkind = FIELD_KINDS[(v // 13) % len(FIELD_KINDS)]
+                        a, b = field_of_kind(r2, fkind, in_shape, dbits), field_of_kind(r2, fkind, in_shape, dbits)
                         al, be = complex(*r2.standard_normal(2)), complex(*r2.standard_normal(2))
-                        key = f'C05/linearity/{route}/{method}'
+                        desc['field_dtype'] = str(a.dtype)
+                        key = f'C05/linearity/{route}/{method}' + ('' if fkind == 'complex' else '/real-dtype-fields')
                         single = bits == 32 or dbits == 32
                         rtol, atol = fixed_tolerance(ctx, single, sh, method, [in_shape] * 3, idx, odx, wvl, efl, [samples] * 3, s,
                                                      [a, b, al * a + be * b], [abs(al), abs(be), 1.0])
@@ -463,13 +493,14 @@ def wl_linearity(ctx, R):
                         def inst(shift_obj):
                             fa = R.fixed(route, relayout(a, lay), idx, efl, wvl, odx, samples, shift_obj, method, desc, key, use_wf)
                             fb = R.fixed(route, relayout(b, lay), idx, efl, wvl, odx, samples, shift_obj, method, desc, key, use_wf)
-                            c = (al * a + be * b).astype(a.dtype)
+                            c = (al * a + be * b).astype(np.complex64 if dbits == 32 else np.complex128)      # complex: U(x + i y) = U(x) + i U(y)
                             fc = R.fixed(route, relayout(c, lay), idx, efl, wvl, odx, samples, shift_obj, method, desc, key, use_wf)
                             if fa is None or fb is None or fc is None:
                                 return None
                             return fc, al * fa + be * fb, None
                         with precision(bits):
-                            judge(ctx, 'linearity', inst, sh, key, f'{route}_fixed_sampling(method={method}) is not linear', desc,
+                            judge(ctx, 'linearity', inst, sh, key, f'{route}_fixed_sampling(method={method}) is not linear'
+                                  + ('' if fkind == 'complex' else ' over the complex numbers for fields stored in a real / integer / boolean dtype'), desc,
                                   rtol=rtol or RTOL, abs_tol=atol)
 
 
@@ -505,10 +536,13 @@ def wl_embedding(ctx, R):
                                     'efl': efl, 'wavelength': wvl, 'output_dx': odx, 'shift_samples': s, 'seed': seed}
                             v, sh, bits, dbits, lay = variant(rng, scls, shift, desc, f'embedding:{route}:{method}:{acls}->{ocls}:{emb}:shift={scls}')
                             ctx.case(desc)
-                            a = to_bits(cnormal(np.random.default_rng(seed), in_shape), dbits)
+                            fkind = FIELD_KINDS[(v // 13) % len(FIELD_KINDS)]
+                            a = field_of_kind(np.random.default_rng(seed), fkind, in_shape, dbits)
+                            desc['field_dtype'] = str(a.dtype)
                             g = geom_label(route, method, [in_shape, big], [samples])
                             shifted = scls != '0'
-                            key = rel_key('embedding', route, method, g, shifted)
+                            key = rel_key('embedding', route, method, g, shifted) if fkind == 'complex' else \
+                                f'C05/embedding/{route}/{method}/real-dtype-field-in-complex-array'
                             single = bits == 32 or dbits == 32
                             rtol, atol = fixed_tolerance(ctx, single, sh, method, [in_shape, big], idx, odx, wvl, efl, [samples] * 2, s, [a, a])
                             if rtol is None and atol is None:
@@ -516,7 +550,9 @@ def wl_embedding(ctx, R):
 
                             def inst(shift_obj):
                                 f1 = R.fixed(route, relayout(a, lay), idx, efl, wvl, odx, samples, shift_obj, method, desc, key)
-                                f2 = R.fixed(route, relayout(place(a, big), lay), idx, efl, wvl, odx, samples, shift_obj, method, desc, key)
+                                # a field stored in a real / integer / boolean dtype is embedded in a COMPLEX zero array (the same physical field)
+                                emb_a = place(a, big) if fkind == 'complex' else place(a, big).astype(np.complex64 if dbits == 32 else np.complex128)
+                                f2 = R.fixed(route, relayout(emb_a, lay), idx, efl, wvl, odx, samples, shift_obj, method, desc, key)
                                 if f1 is None or f2 is None:
                                     return None
                                 return f2, f1, None
@@ -824,6 +860,93 @@ def wl_masks(ctx, R):
 
 
 # ------------------------------------------------------------------------------------------ class B: histories
+def relation_step(ctx, R, kind, route, scls, seed, method, in_shape, big, samples, desc0, j, note='after other calls at the same array sizes',
+                  adjoint_first=False):
+    """One step of a history: traffic, a float32 run of the same calls, or a relation instance judged at the full float64 tolerance."""
+    from prysm.conf import config
+    r2 = np.random.default_rng(seed)
+    wvl, efl, dx = physical(r2)
+    s = draw_shift(r2, scls)
+    desc = dict(desc0, step=j, step_kind=kind, route=route, wavelength=wvl, efl=efl, dx=dx, shift_samples=s, seed=seed)
+    shifted = scls != '0'
+    if route == 'focus':
+        idx = dx
+        odx = wvl * efl / (max(in_shape) * dx) * logu(r2, 0.3, 2.5)
+    else:
+        odx = dx
+        idx = wvl * efl / (max(samples) * dx) * logu(r2, 0.3, 2.5)
+    hk = shift_kind(seed, scls)
+    sh = ShiftArg('nd-f64' if (hk == 'nd-f32' and method == 'czt') else hk, (s[0] * odx, s[1] * odx))   # float32 shift + czt: see fixed_tolerance
+    rt = 1e-4 if sh.lowprec else RTOL
+    a = cnormal(r2, in_shape)
+    if adjoint_first:
+        # the adjoint routines (another property's consumers of the same cached bases) at exactly the keys the relation will use
+        try:
+            bp = R.P.focus_fixed_sampling_backprop if route == 'focus' else R.P.unfocus_fixed_sampling_backprop
+            gb = cnormal(np.random.default_rng(seed + 3), samples)
+            for shp_ in (in_shape, big):
+                bp(gb, idx, efl, wvl, odx, shp_, shift=sh.fresh(), method='mdft')
+        except Exception as e:  # noqa -- foreign routine
+            ctx.event(f'foreign-traffic-raised:{type(e).__name__}')
+    if kind == 'traffic':
+        R.fixed(route, a, idx, efl, wvl, odx, samples, sh.obj, method, desc, f'C05/history/{method}')
+        R.fixed(route, place(a, big), idx, efl, wvl, odx, samples, sh.obj, method, desc, f'C05/history/{method}')
+        return
+    if kind == 'p32-then-p64':
+        config.precision = 32
+        try:
+            R.fixed(route, a.astype(np.complex64), idx, efl, wvl, odx, samples, sh.obj, method, desc, f'C05/history/{method}')
+            R.fixed(route, place(a, big).astype(np.complex64), idx, efl, wvl, odx, samples, sh.obj, method, desc, f'C05/history/{method}')
+        finally:
+            config.precision = 64
+        kind = 'embedding'
+    if kind == 'embedding':
+        g = geom_label(route, method, [in_shape, big], [samples])
+        key = rel_key('embedding', route, method, g, shifted)
+
+        def inst(shift_obj):
+            f1 = R.fixed(route, a, idx, efl, wvl, odx, samples, shift_obj, method, desc, key)
+            f2 = R.fixed(route, place(a, big), idx, efl, wvl, odx, samples, shift_obj, method, desc, key)
+            return None if (f1 is None or f2 is None) else (f2, f1, None)
+        judge(ctx, 'embedding', inst, sh, key, rel_what('embedding', route, method, g) + f' [{note}]',
+              desc, rtol=rt, modulus=shifted)
+    elif kind == 'transpose':
+        g = geom_label(route, method, [in_shape, in_shape[::-1]], [samples, samples[::-1]])
+        key = rel_key('transpose', route, method, g, shifted)
+
+        def inst(shift_obj):
+            f1 = R.fixed(route, a, idx, efl, wvl, odx, samples, shift_obj, method, desc, key)
+            f2 = R.fixed(route, np.ascontiguousarray(a.T), idx, efl, wvl, odx, samples[::-1], shift_obj[::-1], method, desc, key)
+            return None if (f1 is None or f2 is None) else (f2, f1.T, None)
+        judge(ctx, 'transposition', inst, sh, key, rel_what('transpose', route, method, g) + f' [{note}]',
+              desc, rtol=rt)
+    elif kind == 'linearity':
+        key = f'C05/linearity/{route}/{method}'
+        b = cnormal(r2, in_shape)
+        al, be = complex(*r2.standard_normal(2)), complex(*r2.standard_normal(2))
+
+        def inst(shift_obj):
+            fa = R.fixed(route, a, idx, efl, wvl, odx, samples, shift_obj, method, desc, key)
+            fb = R.fixed(route, b, idx, efl, wvl, odx, samples, shift_obj, method, desc, key)
+            fc = R.fixed(route, al * a + be * b, idx, efl, wvl, odx, samples, shift_obj, method, desc, key)
+            return None if (fa is None or fb is None or fc is None) else (fc, al * fa + be * fb, None)
+        judge(ctx, 'linearity', inst, sh, key, f'{route}_fixed_sampling(method={method}) is not linear [{note}]',
+              desc, rtol=rt)
+    else:
+        # all-pass identity on the exact band with the history's pupil shape; the band size is fixed per history
+        P_ = max(in_shape) + 3
+        fdx = wvl * efl / (dx * P_)
+        sh2 = ShiftArg('nd-f64' if (hk == 'nd-f32' and method == 'czt') else hk, (s[0] * fdx, s[1] * fdx))
+        label = tfb_label(method, in_shape, P_)
+        key = tfb_key(method, label, shifted)
+
+        def inst(shift_obj):
+            o = R.tfb(a, dx, efl, wvl, np.ones((P_, P_)), fdx, shift_obj, method, desc, key)
+            return None if o is None else (o, a, None)
+        judge(ctx, 'allpass-identity', inst, sh2, key, tfb_what(method, label, shifted) + f' [{note}]',
+              desc, rtol=1e-4 if sh2.lowprec else RTOL)
+
+
 def wl_history(ctx, R):
     """Relation instances after other traffic on the shared executors at the SAME array sizes: shifted calls with other
     wavelengths / focal lengths / spacings (the basis caches miss, anything keyed on the sizes alone hits), the same relation
@@ -859,82 +982,138 @@ def wl_history(ctx, R):
         try:
             for j, (kind, route, scls, seed) in enumerate(steps):
                 ctx.observe('history.ops')
-                r2 = np.random.default_rng(seed)
-                wvl, efl, dx = physical(r2)
-                s = draw_shift(r2, scls)
-                desc = dict(desc0, step=j, step_kind=kind, route=route, wavelength=wvl, efl=efl, dx=dx, shift_samples=s, seed=seed)
-                shifted = scls != '0'
-                if route == 'focus':
-                    idx = dx
-                    odx = wvl * efl / (max(in_shape) * dx) * logu(r2, 0.3, 2.5)
-                else:
-                    odx = dx
-                    idx = wvl * efl / (max(samples) * dx) * logu(r2, 0.3, 2.5)
-                hk = shift_kind(seed, scls)
-                sh = ShiftArg('nd-f64' if (hk == 'nd-f32' and method == 'czt') else hk, (s[0] * odx, s[1] * odx))   # float32 shift + czt: see fixed_tolerance
-                rt = 1e-4 if sh.lowprec else RTOL
-                a = cnormal(r2, in_shape)
-                if kind == 'traffic':
-                    R.fixed(route, a, idx, efl, wvl, odx, samples, sh.obj, method, desc, f'C05/history/{method}')
-                    R.fixed(route, place(a, big), idx, efl, wvl, odx, samples, sh.obj, method, desc, f'C05/history/{method}')
-                    continue
-                if kind == 'p32-then-p64':
-                    config.precision = 32
-                    try:
-                        R.fixed(route, a.astype(np.complex64), idx, efl, wvl, odx, samples, sh.obj, method, desc, f'C05/history/{method}')
-                        R.fixed(route, place(a, big).astype(np.complex64), idx, efl, wvl, odx, samples, sh.obj, method, desc, f'C05/history/{method}')
-                    finally:
-                        config.precision = 64
-                    kind = 'embedding'
-                if kind == 'embedding':
-                    g = geom_label(route, method, [in_shape, big], [samples])
-                    key = rel_key('embedding', route, method, g, shifted)
-
-                    def inst(shift_obj):
-                        f1 = R.fixed(route, a, idx, efl, wvl, odx, samples, shift_obj, method, desc, key)
-                        f2 = R.fixed(route, place(a, big), idx, efl, wvl, odx, samples, shift_obj, method, desc, key)
-                        return None if (f1 is None or f2 is None) else (f2, f1, None)
-                    judge(ctx, 'embedding', inst, sh, key, rel_what('embedding', route, method, g) + ' [after other calls at the same array sizes]',
-                          desc, rtol=rt, modulus=shifted)
-                elif kind == 'transpose':
-                    g = geom_label(route, method, [in_shape, in_shape[::-1]], [samples, samples[::-1]])
-                    key = rel_key('transpose', route, method, g, shifted)
-
-                    def inst(shift_obj):
-                        f1 = R.fixed(route, a, idx, efl, wvl, odx, samples, shift_obj, method, desc, key)
-                        f2 = R.fixed(route, np.ascontiguousarray(a.T), idx, efl, wvl, odx, samples[::-1], shift_obj[::-1], method, desc, key)
-                        return None if (f1 is None or f2 is None) else (f2, f1.T, None)
-                    judge(ctx, 'transposition', inst, sh, key, rel_what('transpose', route, method, g) + ' [after other calls at the same array sizes]',
-                          desc, rtol=rt)
-                elif kind == 'linearity':
-                    key = f'C05/linearity/{route}/{method}'
-                    b = cnormal(r2, in_shape)
-                    al, be = complex(*r2.standard_normal(2)), complex(*r2.standard_normal(2))
-
-                    def inst(shift_obj):
-                        fa = R.fixed(route, a, idx, efl, wvl, odx, samples, shift_obj, method, desc, key)
-                        fb = R.fixed(route, b, idx, efl, wvl, odx, samples, shift_obj, method, desc, key)
-                        fc = R.fixed(route, al * a + be * b, idx, efl, wvl, odx, samples, shift_obj, method, desc, key)
-                        return None if (fa is None or fb is None or fc is None) else (fc, al * fa + be * fb, None)
-                    judge(ctx, 'linearity', inst, sh, key, f'{route}_fixed_sampling(method={method}) is not linear [after other calls at the same array sizes]',
-                          desc, rtol=rt)
-                else:
-                    # all-pass identity on the exact band with the history's pupil shape; the band size is fixed per history
-                    P_ = max(in_shape) + 3
-                    fdx = wvl * efl / (dx * P_)
-                    sh2 = ShiftArg('nd-f64' if (hk == 'nd-f32' and method == 'czt') else hk, (s[0] * fdx, s[1] * fdx))
-                    label = tfb_label(method, in_shape, P_)
-                    key = tfb_key(method, label, shifted)
-
-                    def inst(shift_obj):
-                        o = R.tfb(a, dx, efl, wvl, np.ones((P_, P_)), fdx, shift_obj, method, desc, key)
-                        return None if o is None else (o, a, None)
-                    judge(ctx, 'allpass-identity', inst, sh2, key, tfb_what(method, label, shifted) + ' [after other calls at the same array sizes]',
-                          desc, rtol=1e-4 if sh2.lowprec else RTOL)
+                relation_step(ctx, R, kind, route, scls, seed, method, in_shape, big, samples, desc0, j)
         finally:
             config.precision = 64
     fttools.mdft.clear()
     fttools.czt.clear()
+
+
+# ------------------------------------------------------------------------------------------ class E: argument forms
+FORM_ROUTINES = ('focus_fixed_sampling', 'unfocus_fixed_sampling', 'to_fpm_and_back', 'babinet')
+
+
+def wl_forms(ctx, R):
+    """Class E (vp/propforms.py): focus_ / unfocus_fixed_sampling and to_fpm_and_back in the canonical form (complex128 arrays,
+    python floats / tuples, keywords, explicit defaults) and then in every other accepted form of the same numbers: field and
+    mask dtype kinds (a real-dtype / integer / boolean array vs its complex copy), shift / sample counts in other containers,
+    numpy and integer scalars, positional calls, omitted defaults after a call with other explicit values, the Wavefront method
+    form.  The physical field is the same in every form, so the result must be.  Wavefront.babinet: lyot=None vs an explicit
+    all-ones Lyot stop (float, integer, boolean), fpm_dx / method by keyword, positionally or omitted."""
+    from .. import propforms as PF
+    from ..util import precision
+    P = R.P
+    reps = ctx.pick(5, 800)
+    k = -1
+    for rep in range(reps):
+        for routine in FORM_ROUTINES:
+            for kind in PF.FIELD_KINDS:
+                k += 1
+                if not ctx.mine(k):
+                    continue
+                rng = case_rng(ctx, 8, k)
+                bits = 32 if (k // ctx.nshards) % 5 == 4 else 64
+                single = bits == 32
+                if routine != 'babinet':
+                    vals = PF.draw_values(routine, rng, kind)
+                    if routine == 'to_fpm_and_back':
+                        vals['method'] = ('mdft', 'czt')[int(rng.integers(2))]
+                        mk = ('real', 'binary', 'complex', 'small-int')[int(rng.integers(4))]
+                        vals['fpm'] = PF.make_field(mk, vals['fpm'].shape, int(rng.integers(2**31 - 1)))
+                        fk = {'wavefunction': kind, 'fpm': mk}
+                    else:
+                        fk = {'wavefunction': kind}
+                    desc = {'rel': 'forms', 'routine': routine, 'field_kind': kind, 'precision': bits, 'k': k,
+                            'values': {a_: v_ for a_, v_ in vals.items() if not isinstance(v_, np.ndarray)}, 'in_shape': vals['wavefunction'].shape,
+                            'class': f'forms:{routine}:{vals["method"]}:{kind}:p{bits}'}
+                    ctx.case(desc)
+                    with precision(bits):
+                        PF.judge_forms(ctx, 'C05', routine, vals, desc, single=single, field_kinds=fk)
+                    continue
+                # Wavefront.babinet(efl, lyot, fpm, fpm_dx=None, method='mdft', return_more=False)
+                vals = PF.draw_values('to_fpm_and_back', rng, kind)
+                method = ('mdft', 'czt')[int(rng.integers(2))]
+                a = vals['wavefunction'].astype(complex)
+                m = vals['fpm']
+                efl, wvl, dx, fdx = vals['efl'], vals['wavelength'], vals['dx'], vals['fpm_dx']
+                desc = {'rel': 'forms', 'routine': 'Wavefront.babinet', 'field_kind': kind, 'precision': bits, 'k': k, 'method': method,
+                        'in_shape': a.shape, 'mask_shape': m.shape, 'class': f'forms:babinet:{method}:{kind}:p{bits}'}
+                ctx.case(desc)
+                with precision(bits):
+                    ref = [None]
+                    with ctx.guard('C05/Wavefront.babinet/form:canonical', desc):
+                        ref[0] = np.array(P.Wavefront(a.copy(), wvl, dx).babinet(efl=efl, lyot=None, fpm=m.copy(), fpm_dx=fdx, method=method, return_more=False).data, copy=True)
+                    if ref[0] is None:
+                        continue
+                    ones = np.ones(a.shape)
+                    forms = [('lyot', 'ones(float64)', lambda: P.Wavefront(a.copy(), wvl, dx).babinet(efl=efl, lyot=ones.copy(), fpm=m.copy(), fpm_dx=fdx, method=method)),
+                             ('lyot', 'ones(int64)', lambda: P.Wavefront(a.copy(), wvl, dx).babinet(efl=efl, lyot=ones.astype(np.int64), fpm=m.copy(), fpm_dx=fdx, method=method)),
+                             ('lyot', 'ones(bool)', lambda: P.Wavefront(a.copy(), wvl, dx).babinet(efl=efl, lyot=ones.astype(bool), fpm=m.copy(), fpm_dx=fdx, method=method)),
+                             ('call', 'positional', lambda: P.Wavefront(a.copy(), wvl, dx).babinet(efl, None, m.copy(), fdx, method, False)),
+                             ('return_more', 'True', lambda: P.Wavefront(a.copy(), wvl, dx).babinet(efl, None, m.copy(), fdx, method=method, return_more=True)[0]),
+                             ('fpm', 'complex128', lambda: P.Wavefront(a.copy(), wvl, dx).babinet(efl, None, m.astype(complex), fpm_dx=fdx, method=method)),
+                             ('field', 'real-or-int-dtype', lambda: P.Wavefront(vals['wavefunction'].astype(np.int64 if kind in ('small-int', 'binary') else vals['wavefunction'].dtype),
+                                                                                 wvl, dx).babinet(efl, None, m.copy(), fpm_dx=fdx, method=method))]
+                    if method == 'mdft':
+                        def omitted():
+                            try:
+                                P.Wavefront(a.copy(), wvl, dx).babinet(efl, ones.copy(), m.copy(), fdx, method='czt', return_more=True)
+                            except Exception:
+                                pass
+                            return P.Wavefront(a.copy(), wvl, dx).babinet(efl, None, m.copy(), fdx)
+                        forms.append(('method+return_more', 'omitted(default)', omitted))
+                    for arg, label, call in forms:
+                        key = f'C05/Wavefront.babinet/form:{arg}={label}'
+                        got = [None]
+                        with ctx.guard(key, dict(desc, form=f'{arg}={label}')):
+                            got[0] = np.array(call().data, copy=True)
+                        if got[0] is None:
+                            continue
+                        ctx.observe('form.equivalence')
+                        d = PF.rel_diff(got[0], ref[0])
+                        # the Babinet difference field - tfb(1 - m) cancels: compare relative to the field, not to the (possibly tiny) result
+                        d = d * float(np.max(np.abs(ref[0]))) / max(float(np.max(np.abs(a))), 1e-300) if np.isfinite(d) else d
+                        if not d <= (PF.TOL_SINGLE if single else 1e-11):
+                            ctx.violation(key + '/result-differs-from-canonical-form',
+                                          f'Wavefront.babinet: the result for {arg} given as {label} differs from the canonical call (lyot=None, keywords)',
+                                          dict(desc, form=f'{arg}={label}'), rel_diff=d)
+
+
+# ------------------------------------------------------------------------------------------ class F: cross-module histories
+def wl_foreign(ctx, R):
+    """Class F: the other public consumers of fftrange / forward_ft_unit / make_xy_grid / pad2d and the shared executors run
+    first at the case's axis lengths (non-zero shifts, ndarray containers, precision 32, returned arrays edited in place),
+    then relation instances (embedding, transposition, linearity, all-pass identity) are judged at those lengths at the full
+    float64 tolerance, nothing cleared in between."""
+    from .. import propforms as PF
+    from prysm.conf import config
+    n = ctx.pick(16, 6400)
+    for k in range(n):
+        if not ctx.mine(k):
+            continue
+        rng = case_rng(ctx, 9, k)
+        hi = ctx.pick(10, 24)
+        base = sorted(set(int(v) for v in rng.integers(4, hi + 1, 3)))
+        lengths = base + [max(base) + 3, base[0] + 1]
+        method = ('mdft', 'czt')[int(rng.integers(2))]
+        desc0 = {'rel': 'foreign', 'class': f'foreign-traffic-then-relations:{method}', 'lengths': lengths, 'method': method, 'k': k}
+        ctx.case(desc0)
+        config.precision = 64
+        try:
+            PF.foreign_traffic(ctx, rng, lengths, dxs=(0.1, 1.0), heavy=(k % 3 == 0), prefix='C05', desc=desc0)
+            config.precision = 64
+            for j in range(ctx.pick(5, 8)):
+                in_shape = (base[int(rng.integers(len(base)))], base[int(rng.integers(len(base)))])
+                samples = (lengths[int(rng.integers(len(lengths)))], lengths[int(rng.integers(len(lengths)))])
+                big = tuple(min([L for L in lengths if L > n_] or [n_ + 1]) for n_ in in_shape)
+                kind = ('embedding', 'transpose', 'linearity', 'allpass')[j % 4]
+                route = ('focus', 'unfocus')[int(rng.integers(2))]
+                scls = SHIFTS[int(rng.integers(3))]
+                ctx.observe('history.ops')
+                relation_step(ctx, R, kind, route, scls, int(rng.integers(2**31 - 1)), method, in_shape, big, samples, desc0, j,
+                              note='after foreign traffic through the other consumers of the shared helpers', adjoint_first=True)
+        finally:
+            config.precision = 64
 
 
 def replay(ctx, rec):
